@@ -41,7 +41,8 @@ struct Feed {
     size_t fail_at = 0;               // stream offset of the first unconsumed byte at that point
     std::string exc;                  // non-empty: exception type escaped from parse()
     bool overclaim = false;
-    bool stuck = false;
+    bool stuck = false;               // kFinishedAll out of a call that consumed nothing (the server's loop would spin on it)
+    std::string short_body;           // non-empty: a request was handed out with fewer/more body bytes than its decimal Content-Length
     size_t consumed = 0;
     size_t leftover = 0;
     size_t fed = 0;
@@ -98,8 +99,13 @@ Feed feed(const std::vector<std::string> &segs, bool count_mechanisms) {
                 Request *req = parser.getRequest();
                 if (req == nullptr) { f.stuck = true; f.leftover = pending.size(); return f; }
                 f.got.push_back(canon(*req));
+                std::string declared;
+                if (f.short_body.empty() && !declared_length_honoured(*req, &declared))
+                    f.short_body = vh::fmt("Content-Length %s, body of %zu bytes, parse() returned %zu of %zu", declared.c_str(), req->body.size(), used, n);
                 delete req;
-                if (used == 0 && ++guard > 4) { f.stuck = true; break; }    // a request out of no bytes, again and again
+                // a request out of a call that consumed nothing: server_imp.cpp's `while (readableSize() > 0)` would deliver it for ever
+                if (used == 0) { f.stuck = true; f.leftover = pending.size(); f.end_state = st; return f; }
+                (void)guard;
             } else if (st == RequestParser::State::kFail) {
                 f.failed = true;
                 f.fail_at = f.consumed;
@@ -153,6 +159,7 @@ bool judge(const Stream &s, const Cuts &cuts, const Feed &f, const char *how) {
     }
     if (f.overclaim) { vh::viol("segment/consumed-more-than-given", ctx()); return false; }
     if (f.stuck) { vh::viol("segment/no-progress", ctx()); return false; }
+    if (!f.short_body.empty()) { vh::viol("segment/body-differs-from-declared-length", ctx() + ": " + f.short_body); return false; }
     if (f.failed) {
         // narrow the key by where the segment that was being parsed ended (the history shape of the failure)
         std::string shape = "other";
@@ -279,8 +286,13 @@ void case_segment(vh::Rng &r, bool big) {
 
 void case_hostile(vh::Rng &r) {
     std::string what, bytes;
-    unsigned kind = (unsigned)r.below(10);
-    if (kind < 6) {
+    unsigned kind = (unsigned)r.below(11);
+    if (kind == 10) {
+        std::string cls; bool tail = false;
+        bytes = boundary_length_stream(r, 0, &what, &cls, &tail);
+        vh::counter("hostile_cl_" + cls);
+        vh::counter(tail ? "hostile_cl_boundary_with_bytes_following" : "hostile_cl_boundary_without_body");
+    } else if (kind < 6) {
         GenOpts o; o.max_body = 30;
         Stream s = gen_stream(r, o, 3);
         bytes = mutate(r, s.reqs, &what);
@@ -312,7 +324,12 @@ void case_hostile(vh::Rng &r) {
             break;
         }
         if (f.overclaim) { vh::viol("parser/consumed-more-than-given", "parse() returned more than data_size"); break; }
-        if (f.stuck) { vh::viol("parser/no-progress", "kFinishedAll without consuming a byte, repeatedly"); break; }
+        if (f.stuck) {
+            vh::viol("parser/no-progress/finished-without-consuming", vh::fmt("parse() returned 0 with state kFinishedAll after %zu requests: the receive loop of the server "
+                                                                              "would hand the same request out for ever; %zu bytes pending", f.got.size(), f.leftover));
+            break;
+        }
+        if (!f.short_body.empty()) { vh::viol("parser/body-differs-from-declared-length", f.short_body); break; }
         if (f.consumed + f.leftover != f.fed) { vh::viol("parser/accounting", vh::fmt("consumed %zu + left %zu != fed %zu", f.consumed, f.leftover, f.fed)); break; }
         if (f.failed) vh::counter("hostile_rejected");
         else if (!f.got.empty()) vh::counter("hostile_yielded_requests");
